@@ -54,7 +54,13 @@ func pickFilter(r *rand.Rand) *ref.Node {
 		}
 		return ref.Not(ref.Has(attrNames[r.Intn(len(attrNames))]))
 	}
-	switch r.Intn(8) {
+	switch r.Intn(11) {
+	case 8: // longer chains: every operand counts, not just the first two
+		return ref.And(basic(), basic(), basic())
+	case 9:
+		return ref.And(ref.Has(n), basic(), basic(), basic())
+	case 10:
+		return ref.Or(ref.And(basic(), basic(), basic()), basic())
 	case 0:
 		return nil
 	case 1:
@@ -385,6 +391,13 @@ func (g *Gen) Step() {
 		w.Ack(s.Name, sel)
 		if r.Intn(5) == 0 {
 			w.Ack(s.Name, sel) // ack twice
+		}
+	case "ack-fault":
+		if s == nil {
+			return
+		}
+		if ids := deliveredIDs(s, true); len(ids) > 0 {
+			w.AckUnderFault(s.Name, g.subset(ids, 0.6), 1+r.Intn(6))
 		}
 	case "ack-all":
 		if s == nil {
